@@ -43,7 +43,7 @@ func cmdCheck(args []string) int {
 	ev.Assumptions = append(ev.Assumptions, spec.Assumptions...)
 	cov := map[string]interface{}{}
 	ev.Coverage = cov
-	evPath := filepath.Join(verifDir, "evidence", id+".json")
+	evPath := filepath.Join(outDir, "evidence", id+".json")
 	inconclusive := []string{}
 
 	progs := map[string]*Program{}
@@ -134,7 +134,7 @@ func cmdCheck(args []string) int {
 	// verdict
 	nViol, nKnown := 0, 0
 	var violRecs []map[string]interface{}
-	replayDir := filepath.Join(verifDir, "replays", "last", id)
+	replayDir := filepath.Join(outDir, "replays", "last", id)
 	os.RemoveAll(replayDir)
 	printedKnown := map[string]bool{}
 	for _, res := range results {
